@@ -56,7 +56,8 @@ fn main() {
         }
     }
     if id == "seeds" {
-        vharness::seeds::write_all(args.get(1).map(|s| s.as_str()).unwrap_or("/verif/fuzz/seeds"));
+        let d = format!("{}/fuzz/seeds", vharness::runner::verif_dir());
+        vharness::seeds::write_all(args.get(1).map(|s| s.as_str()).unwrap_or(&d));
         std::process::exit(0);
     }
     let code = match id {
